@@ -511,6 +511,46 @@ def _is_diag(f, n):
     return c in DIAG_CALLS
 
 
+def _num_rel(f, c):
+    """(expr text, op, int) for a comparison of an expression with an integer literal"""
+    n = f.nodes.get(c)
+    while n is not None and n["k"] == "cast":
+        n = f.nodes.get(n["a"][0])
+    if n is None or n["k"] != "bin" or n.get("op") not in ("<", "<=", ">", ">=", "==", "!="):
+        return None
+    a, b = f.nodes.get(n["a"][0]), f.nodes.get(n["a"][1])
+    while b is not None and b["k"] == "cast":
+        b = f.nodes.get(b["a"][0])
+    if b is None or b["k"] != "int":
+        return None
+    return (expr_str(f, n["a"][0]), n["op"], b["v"])
+
+
+def _num_facts(f, x):
+    out = []
+    for cn, pol in f.guard_conds(f.nblock[x["i"]]):
+        if cn is None or not isinstance(pol, bool):
+            continue
+        rel = _num_rel(f, cn)
+        if rel is None:
+            continue
+        e, op, v = rel
+        if not pol:
+            op = {"<": ">=", "<=": ">", ">": "<=", ">=": "<", "==": "!=", "!=": "=="}[op]
+        out.append((e, op, v))
+    return out
+
+
+def _rel_consistent(op1, v1, op2, v2):
+    """can `E op1 v1` and `E op2 v2` hold together (integers)?"""
+    def sat(op, v, x):
+        return {"<": x < v, "<=": x <= v, ">": x > v, ">=": x >= v, "==": x == v, "!=": x != v}[op]
+    for x in (v1 - 1, v1, v1 + 1, v2 - 1, v2, v2 + 1):
+        if sat(op1, v1, x) and sat(op2, v2, x):
+            return True
+    return False
+
+
 DOCUMENTED = {0: "EX_OK", 1: "EXIT_FAILURE", 64: "EX_USAGE", 65: "EX_DATAERR", 66: "EX_NOINPUT", 67: "EX_NOUSER", 68: "EX_NOHOST", 69: "EX_UNAVAILABLE",
               70: "EX_SOFTWARE", 71: "EX_OSERR", 72: "EX_OSFILE", 73: "EX_CANTCREAT", 74: "EX_IOERR", 75: "EX_TEMPFAIL", 76: "EX_PROTOCOL", 77: "EX_NOPERM", 78: "EX_CONFIG"}
 
@@ -548,9 +588,46 @@ def rule_exit_discipline(ctx):
                 continue
             if f.qn == "main" and x["k"] == "ret" and ("cpd.do_check", True) in [(expr_str(f, cn), pol) for cn, pol in f.guard_conds(f.nblock[x["i"]]) if cn is not None]:
                 continue        # --check verdict: FAIL lines were printed per file (C12.status)
-            w = f.paths_avoiding(f.entry, lambda y: y["i"] == x["i"], lambda y: _is_diag(f, y), start_is_node=False)
+            # paths that contradict a fact which holds at the exit are infeasible: `if (opt() > 0) { log } if (opt() == 2) exit`
+            tfacts = _num_facts(f, x)
+
+            def edge_ok(b, i, f=f, tfacts=tfacts):
+                t = f.blocks[b].get("term")
+                c = t.get("lc", t.get("c")) if t else None
+                if c is None or len(f.succ[b]) != 2:
+                    return True
+                rel = _num_rel(f, c)
+                if rel is None:
+                    return True
+                e, op, v = rel
+                if i == 1:
+                    op = {"<": ">=", "<=": ">", ">": "<=", ">=": "<", "==": "!=", "!=": "=="}[op]
+                for (e2, op2, v2) in tfacts:
+                    if e2 == e and not _rel_consistent(op, v, op2, v2):
+                        return False
+                return True
+            w = f.paths_avoiding(f.entry, lambda y: y["i"] == x["i"], lambda y: _is_diag(f, y), start_is_node=False, edge_ok=edge_ok)
             r.check(w is None, inst, db.loc(f, x), "exit(%s) in %s can be reached without any diagnostic on stderr: uncrustify refuses the input silently"
                     % (DOCUMENTED.get(st, st), f.qn), path=["%s:%d" % (f.file, l) for l in f.path_lines(w[0])][-6:] if w else None)
+            # a diagnostic written through the logger only reaches stderr if the message ends in a newline (log_end()) or
+            # log_flush(true) runs before exit(): exit() does not flush the log buffer
+            if w is None:
+                logs = [y for y in f.all_nodes() if y["k"] == "call" and y.get("c") == "log_fmt" and len(y.get("a", ())) >= 2
+                        and (enum_consts(f, y["i"]) & {"LERR", "LWARN"})]
+                for L in logs:
+                    fmt = f.nodes.get(L["a"][1])
+                    while fmt is not None and fmt["k"] == "cast":
+                        fmt = f.nodes.get(fmt["a"][0])
+                    if fmt is None or fmt["k"] != "str" or fmt["v"].endswith("\n"):
+                        continue
+                    # an unterminated message: is it the last thing logged on some path to this exit?
+                    wl = f.paths_avoiding(L["i"], lambda y: y["i"] == x["i"],
+                                          lambda y: y["k"] == "call" and y["i"] != L["i"] and ((y.get("c") or "").startswith("log_")
+                                                                                               or (db.funcs.get(y.get("cm")) is not None and db.funcs[y["cm"]].file == "src/logger.cpp")))
+                    r.check(wl is None, inst + "/diagnostic-is-flushed", db.loc(f, L),
+                            "the message `%s` is the last one logged before exit(%s) and does not end in a newline, and no log_flush(true) follows: "
+                            "the logger keeps it in its buffer (log_end) and exit() discards it - the input is refused silently"
+                            % (fmt["v"][:50], DOCUMENTED.get(st, st)))
     r.require(n >= 100, "only %d exit sites found" % n)
     r.floor(100)
 
